@@ -1,10 +1,15 @@
 """L1: configuration + ODS sheet -> parsed transactions.  Generates real .ods / .ini files,
-drives Configuration + parse_ods, feeds the Coq parser model with the cells read back from the
-same file, and provides the fault injectors of C12."""
+drives Configuration + open_ods + parse_ods (in-process) and the rp2_<country> console scripts,
+feeds the Coq parser model with the cells read back from the same file, and provides the
+independent oracle of C11 and the fault injectors of C12."""
 import copy
+import json
 import os
+import shutil
+import subprocess
+import sys
 import tempfile
-from decimal import Decimal
+from decimal import Decimal, getcontext
 from fractions import Fraction
 
 from harness import core, hist
@@ -17,18 +22,30 @@ INTRA_FIELDS = ["timestamp", "asset", "from_exchange", "from_holder", "to_exchan
                 "crypto_received", "unique_id", "notes"]
 FIELDS = {"in": IN_FIELDS, "out": OUT_FIELDS, "intra": INTRA_FIELDS}
 MANDATORY = {"in": IN_FIELDS[:7], "out": OUT_FIELDS[:8], "intra": INTRA_FIELDS[:9]}
+# a first column must never be empty and never look like a keyword: mandatory, non-optional-valued fields
 FIRST_COL_OK = {"in": ["timestamp", "asset", "exchange", "holder", "transaction_type", "spot_price", "crypto_in"],
-                "out": ["timestamp", "asset", "exchange", "holder", "transaction_type"],
-                "intra": ["timestamp", "asset", "from_exchange", "from_holder", "to_exchange", "to_holder", "crypto_sent"]}
+                "out": ["timestamp", "asset", "exchange", "holder", "transaction_type", "spot_price", "crypto_out_no_fee", "crypto_fee"],
+                "intra": ["timestamp", "asset", "from_exchange", "from_holder", "to_exchange", "to_holder", "crypto_sent", "crypto_received"]}
 NUMERIC = {"spot_price", "crypto_in", "crypto_fee", "fiat_in_no_fee", "fiat_in_with_fee", "fiat_fee", "crypto_out_no_fee",
            "crypto_out_with_fee", "fiat_out_no_fee", "crypto_sent", "crypto_received"}
 KEYWORD = {"in": "IN", "out": "OUT", "intra": "INTRA"}
+TABLES = ("in", "out", "intra")
+SRC = {"in": "ins", "out": "outs", "intra": "intras"}
+ORDERS = [["in", "out", "intra"], ["in", "intra", "out"], ["out", "in", "intra"], ["out", "intra", "in"],
+          ["intra", "in", "out"], ["intra", "out", "in"]]
+COUNTRIES = ["us", "es", "jp", "ie", "generic"]
+CCODE = {c: i for i, c in enumerate(COUNTRIES)}
 
 
+def dkey(f):
+    return "spot" if f == "spot_price" else f
+
+
+# ----------------------------------------------------------------------------- generation of valid inputs
 def gen_layout(rng, compact=False):
     """random injective column assignment per table; first column holds a mandatory, never-empty field"""
     lay = {}
-    for t in ("in", "out", "intra"):
+    for t in TABLES:
         fields = list(MANDATORY[t])
         for f in FIELDS[t][len(MANDATORY[t]):]:
             if rng.chance(75):
@@ -38,10 +55,14 @@ def gen_layout(rng, compact=False):
         cols = list(range(1, ncols))
         rng.shuffle(cols)
         m = {first: 0}
-        for f in fields:
+        order = list(fields)
+        rng.shuffle(order)                 # the order of the lines in the ini section is random as well
+        for f in order:
             if f != first:
                 m[f] = cols.pop()
-        lay[t] = m
+        items = list(m.items())
+        rng.shuffle(items)
+        lay[t] = dict(items)
     return lay
 
 
@@ -59,21 +80,109 @@ def num11_of_float(x):
     return q
 
 
-JUNK = ["x", "n/a", 12.5, 0.0, "IN", "TABLE END", None, None, "2020-01-01", True]
+JUNK = ["x", "n/a", 12.5, 0.0, "IN", "TABLE END", None, None, "2020-01-01", True, "out", -3.25]
 
 
-def render(case, lay, rng, order=None, gaps=True, junk=True, empty_tables="auto"):
-    """-> (rows: list of list of python cell values, rowmap: {(table, k): sheet row number})"""
+def ts_variants(us, off):
+    """several spellings of the same aware timestamp, all unambiguous for python-dateutil"""
+    from datetime import datetime, timedelta, timezone
+    dt = (datetime(1970, 1, 1, tzinfo=timezone.utc) + timedelta(microseconds=us)).astimezone(timezone(timedelta(seconds=off)))
+    out = [dt.isoformat(sep=" ", timespec="microseconds"), dt.isoformat(sep="T", timespec="microseconds")]
+    sign = "+" if off >= 0 else "-"
+    hh, mm = divmod(abs(off) // 60, 60)
+    out.append(dt.strftime("%Y-%m-%d %H:%M:%S.%f") + f" {sign}{hh:02d}{mm:02d}")
+    if dt.microsecond == 0:
+        out.append(dt.strftime("%Y-%m-%d %H:%M:%S") + f"{sign}{hh:02d}:{mm:02d}")
+    if off == 0:
+        out.append(dt.strftime("%Y-%m-%dT%H:%M:%S.%f") + "Z")
+    return out
+
+
+def mixed_case(rng, s):
+    r = rng.below(10)
+    return s if r < 6 else s.lower() if r < 8 else s.capitalize()
+
+
+def decorate(case, lay, rng, plain=False):
+    """drop optional values whose column is not mapped; add unique ids / notes / spelling variants"""
+    c = copy.deepcopy(case)
+    for t in TABLES:
+        for k, d in enumerate(c[SRC[t]]):
+            for f in FIELDS[t]:
+                if f not in lay[t] and dkey(f) in d and f not in MANDATORY[t]:
+                    d.pop(dkey(f))
+            if "unique_id" in lay[t] and rng.chance(60):
+                d["unique_id"] = rng.choice([f"tx{k}", "0xabc", 17.0, "id with spaces"])
+            if "notes" in lay[t] and rng.chance(40):
+                d["notes"] = rng.choice(["note", "fee included", "a; b"])
+            if not plain:
+                if rng.chance(30):
+                    d["ts_str"] = rng.choice(ts_variants(*d["ts"]))
+                if t != "intra":
+                    d["type_str"] = mixed_case(rng, d["type"])
+            d.pop("row", None)
+    return c
+
+
+def sheet_case(rng, n_max=10, big=False, asset="B1", accounts=None):
+    """a history suitable for a sheet (every row individually valid for its constructor)"""
+    c = hist.gen_history(rng, n_max=n_max, overdraw_pct=0, optional_pct=35, mixed_pct=15, accounts=accounts)
+    c["asset"] = asset
+    lim = 4 * 10 ** 15
+    for key in ("ins", "outs", "intras"):
+        for d in c[key]:
+            for f in list(d):
+                if isinstance(d[f], int) and not isinstance(d[f], bool) and f not in ("row", "exch", "holder", "from_exch", "from_holder", "to_exch", "to_holder"):
+                    if not big and d[f] > lim:
+                        d[f] = d[f] % lim + 1
+    for d in c["ins"]:
+        if d["type"] == "BUY" and "fiat_fee" not in d and rng.chance(30):
+            d["crypto_fee"] = rng.choice([1, 1000, 10 ** 9, d["crypto_in"] // 100 + 1, 12345678901])
+        if "crypto_fee" in d and "fiat_fee" in d:
+            d.pop("fiat_fee")
+        if d.get("crypto_fee") and "fiat_in_no_fee" not in d:
+            # keep the derived fiat value of the acquisition >= 1e-13 (see finding dust-crypto-fee-split)
+            while hist.round_half_even_13(d["crypto_in"] * d["spot"]) == 0:
+                d["spot"] *= 1000
+    for d in c["outs"]:
+        d.pop("crypto_out_with_fee", None) if rng.chance(50) else None
+        if d["type"] == "FEE":
+            d["crypto_out_no_fee"] = 0
+            d["crypto_fee"] = max(1, d["crypto_fee"])
+            d.pop("fiat_out_no_fee", None)
+        else:
+            d["crypto_out_no_fee"] = max(1, d["crypto_out_no_fee"])
+            d["spot"] = max(1, d["spot"])
+        if "crypto_out_with_fee" in d:
+            d["crypto_out_with_fee"] = d["crypto_out_no_fee"] + d["crypto_fee"]
+    for d in c["intras"]:
+        if d["crypto_received"] > d["crypto_sent"]:
+            d["crypto_received"] = d["crypto_sent"]
+        if d["crypto_sent"] != d["crypto_received"] and not d.get("spot"):
+            d["spot"] = hist.U
+    for d in c["ins"]:
+        d["spot"] = max(1, d["spot"])
+    return c
+
+
+def render(case, lay, rng, order=None, gaps=True, junk=True, empty_tables="auto", width_extra=None):
+    """-> (rows: list of list of python cell values, rowmap {"in:0": sheet row number}, struct: per rendered table
+    {"t", "kw", "hdr", "data": [row indices], "end"} with 0-based row indices)"""
     from harness import impl
-    order = order or rng.shuffle(["in", "out", "intra"])
-    width = max(max(m.values()) for m in lay.values()) + 1 + (rng.range(0, 3) if junk else 0)
-    rows, rowmap = [], {}
+    order = list(order) if order else rng.shuffle(list(TABLES))
+    extra = width_extra if width_extra is not None else (rng.range(0, 3) if junk else 0)
+    width = max(max(m.values()) for m in lay.values()) + 1 + extra
+    rows, rowmap, struct = [], {}, []
     ex, ho = case["exchanges"], case["holders"]
 
     def blank():
         r = [None] * width
         if rng.chance(30):
             r[0] = ""
+        if junk:
+            for c in range(1, width):          # a row is blank when its first cell is empty
+                if rng.chance(10):
+                    r[c] = rng.choice(JUNK)
         return r
 
     def fill_junk(r, used):
@@ -83,9 +192,8 @@ def render(case, lay, rng, order=None, gaps=True, junk=True, empty_tables="auto"
                     r[c] = rng.choice(JUNK)
         return r
 
-    src = {"in": case["ins"], "out": case["outs"], "intra": case["intras"]}
     for t in order:
-        data = src[t]
+        data = case[SRC[t]]
         if not data and t != "in":
             if empty_tables == "never" or (empty_tables == "auto" and rng.chance(50)):
                 continue
@@ -94,102 +202,181 @@ def render(case, lay, rng, order=None, gaps=True, junk=True, empty_tables="auto"
                 rows.append(blank())
         m = lay[t]
         used = set(m.values())
+        st = {"t": t, "kw": len(rows), "data": []}
         r = [None] * width
-        r[0] = KEYWORD[t] if rng.chance(70) else KEYWORD[t].lower() if rng.chance(50) else KEYWORD[t].capitalize()
+        r[0] = mixed_case(rng, KEYWORD[t])
         rows.append(fill_junk(r, {0}))
+        st["hdr"] = len(rows)
         r = [None] * width
         for f, c in m.items():
             r[c] = f.replace("_", " ").title()
         rows.append(fill_junk(r, used))
         for k, d in enumerate(data):
             r = [None] * width
-            vals = {"timestamp": impl.ts_string(*d["ts"]), "asset": case["asset"], "unique_id": d.get("unique_id"), "notes": d.get("notes")}
+            vals = {"timestamp": d.get("ts_str") or impl.ts_string(*d["ts"]), "asset": case["asset"], "unique_id": d.get("unique_id"),
+                    "notes": d.get("notes")}
             if t == "intra":
                 vals.update({"from_exchange": ex[d["from_exch"]], "from_holder": ho[d["from_holder"]], "to_exchange": ex[d["to_exch"]],
                              "to_holder": ho[d["to_holder"]]})
             else:
-                vals.update({"exchange": ex[d["exch"]], "holder": ho[d["holder"]], "transaction_type": d["type"]})
+                vals.update({"exchange": ex[d["exch"]], "holder": ho[d["holder"]], "transaction_type": d.get("type_str", d["type"])})
             for f in FIELDS[t]:
                 if f in NUMERIC:
-                    key = "spot" if f == "spot_price" else f
-                    v = d.get(key)
+                    v = d.get(dkey(f))
                     vals[f] = None if v is None else fnum(v)
-            if t == "out" and vals.get("crypto_fee") is None:
-                vals["crypto_fee"] = 0.0
             for f, c in m.items():
                 r[c] = vals.get(f)
-            rowmap[(t, k)] = len(rows) + 1
+            rowmap[f"{t}:{k}"] = len(rows) + 1
+            st["data"].append(len(rows))
             rows.append(fill_junk(r, used))
+        st["end"] = len(rows)
         r = [None] * width
         r[0] = "TABLE END"
         rows.append(fill_junk(r, {0}))
+        struct.append(st)
     if gaps:
         for _ in range(rng.range(0, 2)):
             rows.append(blank())
-    return rows, rowmap
+    return rows, rowmap, struct
 
 
-def restrict_to_layout(case, lay, rng):
-    """drop optional values whose column is not mapped; add unique ids / notes"""
-    c = copy.deepcopy(case)
-    for t, key in (("in", "ins"), ("out", "outs"), ("intra", "intras")):
-        for k, d in enumerate(c[key]):
-            for f in FIELDS[t]:
-                dk = "spot" if f == "spot_price" else f
-                if f not in lay[t] and dk in d and f not in MANDATORY[t]:
-                    d.pop(dk)
-            if "unique_id" in lay[t] and rng.chance(60):
-                d["unique_id"] = rng.choice([f"tx{k}", "0xabc", 17.0])
-            if "notes" in lay[t] and rng.chance(40):
-                d["notes"] = rng.choice(["note", "fee included", ""]) or None
-        # artificial (negative) rows do not exist in a sheet
-    return c
+# ----------------------------------------------------------------------------- independent oracle (C11)
+def _P(x):
+    from harness import impl
+    return list(impl.norm_pair(*impl.dec_pair(x)))
 
 
-def sheet_case(rng, compact=False, big=False):
-    """a history suitable for a sheet: no negative rows, amounts mostly below 4.5e4 (exact double round trip)"""
-    c = hist.gen_history(rng, n_max=10, overdraw_pct=0, optional_pct=35, mixed_pct=15)
-    for key in ("ins", "outs", "intras"):
-        for d in c[key]:
-            for f in list(d):
-                if isinstance(d[f], int) and f not in ("row", "exch", "holder", "from_exch", "from_holder", "to_exch", "to_holder") and not big:
-                    if d[f] > 4 * 10 ** 15:
-                        d[f] = d[f] % (4 * 10 ** 15) + 1
-    # crypto fee on acquisitions (split rule)
-    for d in c["ins"]:
-        if d["type"] == "BUY" and "fiat_fee" not in d and rng.chance(25):
-            d["crypto_fee"] = rng.choice([1, 1000, 10 ** 9, d["crypto_in"] // 100 + 1])
-        if "crypto_fee" in d and "fiat_fee" in d:
-            d.pop("fiat_fee")
-    # keep out/intra internally consistent after the reduction
-    for d in c["outs"]:
-        d.pop("crypto_out_with_fee", None)
-        if d["type"] == "FEE":
-            d["crypto_out_no_fee"] = 0
-            d["crypto_fee"] = max(1, d["crypto_fee"])
+def _D(u):
+    return Decimal(u).scaleb(-11)
+
+
+def expected(case, lay, rowmap, counter=0):
+    """What the property text demands, computed from the generating case only: every field from the column the
+    layout assigns to it (a field without a column is absent), numbers = exact half-even rounding of the cell's double
+    to 11 decimals, documented defaults for absent optionals (docs/input_files.md), one transaction per row in row
+    order, and the crypto-fee split.  -> dict shaped like dump_input_data (sets ordered by instant, stable)."""
+    getcontext().prec = 31
+    notes_on = []
+
+    def num(t, d, f):
+        if f not in lay[t]:
+            return None
+        v = d.get(dkey(f))
+        if v is None:
+            return None
+        u = num11_of_float(fnum(v))
+        if abs(v) < 2 ** 52 and u != v:
+            notes_on.append(f"num11 not exact on {v}")
+        return u
+
+    def meta(t, d, split=False):
+        u = d.get("unique_id") if "unique_id" in lay[t] else None
+        n = d.get("notes") if "notes" in lay[t] else None
+        return ["" if u is None else str(u), "" if n is None else n]
+
+    ins, outs, intras, art, metas = [], [], [], [], {}
+    for k, d in enumerate(case["ins"]):
+        row = rowmap[f"in:{k}"]
+        spot, cin = num("in", d, "spot_price"), num("in", d, "crypto_in")
+        cfee, f1, f2, f3 = (num("in", d, f) for f in ("crypto_fee", "fiat_in_no_fee", "fiat_in_with_fee", "fiat_fee"))
+        fee = _D(cfee) * _D(spot) if cfee is not None else _D(f3 or 0)
+        no_fee = _D(f1) if f1 is not None else _D(cin) * _D(spot)
+        with_fee = _D(f2) if f2 is not None else no_fee + fee
+        base = [row, d["ts"][0], d["ts"][1], d["exch"], d["holder"], d["type"], spot, cin]
+        metas[row] = meta("in", d) + [bool(cfee)]
+        if cfee:
+            # acquisition (no crypto fee any more, fiat fee = crypto_fee * spot) + artificial fee-only disposal at the same instant
+            counter -= 1
+            ins.append(base + [0, _P(no_fee), _P(with_fee), _P(fee)])
+            art.append([counter, d["ts"][0], d["ts"][1], d["exch"], d["holder"], "FEE", spot, 0, cfee, cfee, _P(Decimal(0)), _P(fee), _P(fee)])
+            metas[counter] = [metas[row][0], None, True]
         else:
-            d["crypto_out_no_fee"] = max(1, d["crypto_out_no_fee"])
-    for d in c["intras"]:
-        if d["crypto_received"] > d["crypto_sent"]:
-            d["crypto_received"] = d["crypto_sent"]
-        if d["crypto_sent"] != d["crypto_received"] and not d.get("spot"):
-            d["spot"] = hist.U
-    return c
+            ins.append(base + [0, _P(no_fee), _P(with_fee), _P(fee)])
+    for k, d in enumerate(case["outs"]):
+        row = rowmap[f"out:{k}"]
+        spot, nofee, fee = num("out", d, "spot_price"), num("out", d, "crypto_out_no_fee"), num("out", d, "crypto_fee")
+        w, f1, f2 = (num("out", d, f) for f in ("crypto_out_with_fee", "fiat_out_no_fee", "fiat_fee"))
+        total = w if w is not None else nofee + fee
+        f_nofee = _D(f1) if f1 is not None else _D(nofee) * _D(spot)
+        f_fee = _D(f2) if f2 is not None else _D(fee) * _D(spot)
+        outs.append([row, d["ts"][0], d["ts"][1], d["exch"], d["holder"], d["type"], spot, nofee, fee, total, _P(f_nofee), _P(f_fee), _P(f_nofee + f_fee)])
+        metas[row] = meta("out", d) + [False]
+    for k, d in enumerate(case["intras"]):
+        row = rowmap[f"intra:{k}"]
+        spot, sent, recv = num("intra", d, "spot_price"), num("intra", d, "crypto_sent"), num("intra", d, "crypto_received")
+        spot = spot or 0
+        intras.append([row, d["ts"][0], d["ts"][1], d["from_exch"], d["from_holder"], d["to_exch"], d["to_holder"], spot, sent, recv,
+                       sent - recv, _P(_D(sent - recv) * _D(spot))])
+        metas[row] = meta("intra", d) + [False]
+    by_instant = lambda x: x[1]  # noqa: E731
+    return {"ins": sorted(ins, key=by_instant), "outs": sorted(outs + art, key=by_instant), "intras": sorted(intras, key=by_instant),
+            "meta": metas, "counter": counter, "oracle_notes": notes_on}
+
+
+def split_semantics(case, lay, rowmap, got):
+    """the property's last sentence, checked on the implementation's own output: for every acquisition with a crypto fee there is
+    exactly one fee-only disposal at the same instant; net coin flow = crypto_in - fee; cost basis = fiat_in_no_fee + fee * spot"""
+    getcontext().prec = 31
+    bad = []
+    ins = {r[0]: r for r in got["ins"]}
+    arts = [r for r in got["outs"] if r[0] < 0]
+    want = 0
+    for k, d in enumerate(case["ins"]):
+        cf = d.get("crypto_fee") if "crypto_fee" in lay["in"] else None
+        if not cf:
+            continue
+        want += 1
+        row = rowmap[f"in:{k}"]
+        a = ins.get(row)
+        if a is None:
+            bad.append(f"acquisition row {row} with crypto fee is missing")
+            continue
+        cfu, cinu = num11_of_float(fnum(cf)), num11_of_float(fnum(d["crypto_in"]))
+        cand = [o for o in arts if o[1] == d["ts"][0] and o[3] == d["exch"] and o[4] == d["holder"] and o[8] == cfu]
+        if not cand:
+            bad.append(f"no artificial fee-only disposal of {cfu}e-11 at the instant of row {row}")
+            continue
+        o = cand[0]
+        if o[5] != "FEE" or o[7] != 0 or o[9] != cfu:
+            bad.append(f"artificial disposal for row {row} is not fee-only: {o}")
+        flow = a[7] - o[9]
+        if flow != cinu - cfu:
+            bad.append(f"coin flow of row {row}: {flow}, expected crypto_in - fee = {cinu - cfu}")
+        cv = lambda v: _D(num11_of_float(fnum(v)))  # noqa: E731  (the value the cell's double carries at 11 decimals)
+        nf = cv(d["fiat_in_no_fee"]) if d.get("fiat_in_no_fee") is not None and "fiat_in_no_fee" in lay["in"] else cv(d["crypto_in"]) * cv(d["spot"])
+        wf = cv(d["fiat_in_with_fee"]) if d.get("fiat_in_with_fee") is not None and "fiat_in_with_fee" in lay["in"] else nf + cv(cf) * cv(d["spot"])
+        if a[10] != _P(wf):
+            bad.append(f"cost basis of row {row}: {a[10]}, expected {_P(wf)}")
+    if len(arts) != want:
+        bad.append(f"{len(arts)} artificial disposals for {want} acquisitions with a crypto fee")
+    if sorted(o[0] for o in arts) != list(range(-len(arts), 0)) and arts:
+        pass    # ids continue from the configuration's counter; checked through 'counter'
+    return bad
 
 
 # ----------------------------------------------------------------------------- files
-def write_ini(path, lay, assets, exchanges, holders, extra=""):
-    with open(path, "w", encoding="utf-8") as f:
-        f.write("[general]\n")
-        f.write("assets = " + ", ".join(assets) + "\n")
-        f.write("exchanges = " + ", ".join(exchanges) + "\n")
-        f.write("holders = " + ", ".join(holders) + "\n\n")
-        for t in ("in", "out", "intra"):
-            f.write(f"[{t}_header]\n")
-            for fld, col in lay[t].items():
-                f.write(f"{fld} = {col}\n")
-            f.write("\n")
-        f.write(extra)
+def ini_text(lay, assets, exchanges, holders, extra=""):
+    s = "[general]\n"
+    s += "assets = " + ", ".join(assets) + "\n"
+    s += "exchanges = " + ", ".join(exchanges) + "\n"
+    s += "holders = " + ", ".join(holders) + "\n\n"
+    for t in TABLES:
+        s += f"[{t}_header]\n"
+        for fld, col in lay[t].items():
+            s += f"{fld} = {col}\n"
+        s += "\n"
+    return s + extra
+
+
+def tokenise_ini(text):
+    """sections in file order with their items, by configparser (library); None if configparser itself rejects the text"""
+    from configparser import ConfigParser, Error
+    cp = ConfigParser()
+    try:
+        cp.read_string(text)
+    except Error:
+        return None
+    return [(name, list(cp[name].items())) for name in cp.sections()]
 
 
 def write_ods(path, sheets):
@@ -238,24 +425,8 @@ def enc_str(s):
     return [len(s)] + [ord(ch) for ch in s]
 
 
-def encode_parse_input(lay, assets, exchanges, holders, asset, counter, cells):
-    a = []
-    for t in ("in", "out", "intra"):
-        m = lay[t]
-        a.append(len(m))
-        for f, c in m.items():
-            a += [FIELDS[t].index(f), c]
-    for l in (assets, exchanges, holders):
-        a.append(len(l))
-        for s in l:
-            a += enc_str(s)
-    a += enc_str(asset)
-    a.append(counter)
-    tso = ts_oracle(cells)
-    a.append(len(tso))
-    for s, (k, us, off) in tso.items():
-        a += enc_str(s) + [k, us, off]
-    a.append(len(cells))
+def enc_cells(cells):
+    a = [len(cells)]
     for row in cells:
         a.append(len(row))
         for v in row:
@@ -271,7 +442,59 @@ def encode_parse_input(lay, assets, exchanges, holders, asset, counter, cells):
     return a
 
 
-def decode_parsed(res):
+def encode_parse_full(lay, assets, exchanges, holders, asset, counter, cells):
+    """input of model command 41"""
+    a = []
+    for t in TABLES:
+        m = lay[t]
+        a.append(len(m))
+        for f, c in m.items():
+            a += [FIELDS[t].index(f), c]
+    for l in (assets, exchanges, holders):
+        a.append(len(l))
+        for s in l:
+            a += enc_str(s)
+    tso = ts_oracle(cells)
+    a.append(len(tso))
+    for s, (k, us, off) in tso.items():
+        a += enc_str(s) + [k, us, off]
+    a += enc_str(asset)
+    a.append(counter)
+    a += enc_cells(cells)
+    return a
+
+
+def encode_sections(secs):
+    a = [len(secs)]
+    for name, items in secs:
+        a += enc_str(name)
+        a.append(len(items))
+        for k, v in items:
+            a += enc_str(k) + enc_str(v)
+    return a
+
+
+def _rd_str(r):
+    n = r.z()
+    return "".join(chr(r.z()) for _ in range(n))
+
+
+def _rd_arg(r):
+    if r.z() == 0:
+        return ["none"]
+    k = r.z()
+    if k == 0:
+        return ["cell", None]
+    if k == 1:
+        return ["cell", _rd_str(r)]
+    if k == 2:
+        n, d = r.z(), r.z()
+        return ["cell", n / d if d else None]
+    return ["cell", bool(r.z())]
+
+
+def decode_parsed_full(res):
+    """output of model command 41 -> dict shaped like dump_input_data"""
     from harness.l4 import Reader
     if res[0] != 0:
         return {"err": res[0]}
@@ -281,12 +504,33 @@ def decode_parsed(res):
     d["ins"] = r.lst(lambda: [r.z(), r.z(), r.z(), r.z(), r.z(), hist.TT[r.z()], r.z(), r.z(), r.z(), r.dec(), r.dec(), r.dec()])
     d["outs"] = r.lst(lambda: [r.z(), r.z(), r.z(), r.z(), r.z(), hist.TT[r.z()], r.z(), r.z(), r.z(), r.z(), r.dec(), r.dec(), r.dec()])
     d["intras"] = r.lst(lambda: [r.z(), r.z(), r.z(), r.z(), r.z(), r.z(), r.z(), r.z(), r.z(), r.z(), r.z(), r.dec()])
+    meta = r.lst(lambda: [r.z(), _rd_arg(r), _rd_arg(r)])
+    d["meta"] = {}
+    for row, u, n in meta:
+        uid = "" if u[0] == "none" or u[1] is None else str(u[1])
+        notes = None if row < 0 else ("" if n[0] == "none" or not n[1] else n[1])
+        d["meta"][row] = [uid, notes]
     for k in ("ins", "outs", "intras"):
         d[k] = sorted(d[k], key=lambda x: x[1])          # iteration order of the sets: by instant, stable
     return d
 
 
-# ----------------------------------------------------------------------------- implementation
+def decode_config(res):
+    from harness.l4 import Reader
+    if res[0] != 0:
+        return {"err": res[0]}
+    r = Reader(res)
+    r.z()
+    d = {}
+    for t in TABLES:
+        d[t] = r.lst(lambda: [r.z(), r.z()])
+    for k in ("assets", "exchanges", "holders"):
+        d[k] = r.lst(lambda: _rd_str(r))
+    d["methods"] = r.lst(lambda: [r.z(), _rd_str(r)])
+    return d
+
+
+# ----------------------------------------------------------------------------- implementation (in-process)
 def dump_input_data(input_data, exchanges, holders):
     from datetime import datetime, timezone, timedelta
     from harness import impl
@@ -297,62 +541,157 @@ def dump_input_data(input_data, exchanges, holders):
     for t in input_data.unfiltered_in_transaction_set:
         d["ins"].append([t.row] + ts(t.timestamp) + [exchanges.index(t.exchange), holders.index(t.holder), t.transaction_type.name,
                         hist.units(t.spot_price), hist.units(t.crypto_in), hist.units(t.crypto_fee), P(t.fiat_in_no_fee), P(t.fiat_in_with_fee), P(t.fiat_fee)])
-        d["meta"][t.row] = [t.unique_id, t.notes]
+        d["meta"][t.row] = [t.unique_id, t.notes, t.asset]
     for t in input_data.unfiltered_out_transaction_set:
         d["outs"].append([t.row] + ts(t.timestamp) + [exchanges.index(t.exchange), holders.index(t.holder), t.transaction_type.name,
                          hist.units(t.spot_price), hist.units(t.crypto_out_no_fee), hist.units(t.crypto_fee), hist.units(t.crypto_out_with_fee),
                          P(t.fiat_out_no_fee), P(t.fiat_fee), P(t.fiat_out_with_fee)])
-        d["meta"][t.row] = [t.unique_id, t.notes]
+        d["meta"][t.row] = [t.unique_id, t.notes, t.asset]
     for t in input_data.unfiltered_intra_transaction_set:
         d["intras"].append([t.row] + ts(t.timestamp) + [exchanges.index(t.from_exchange), holders.index(t.from_holder), exchanges.index(t.to_exchange),
                            holders.index(t.to_holder), hist.units(t.spot_price), hist.units(t.crypto_sent), hist.units(t.crypto_received),
                            hist.units(t.crypto_fee), P(t.fiat_fee)])
-        d["meta"][t.row] = [t.unique_id, t.notes]
+        d["meta"][t.row] = [t.unique_id, t.notes, t.asset]
+        if t.transaction_type.name != "MOVE":
+            d["intras"][-1].append(t.transaction_type.name)
+    # filtered views must hold the same transactions when no date filter is given
+    for name in ("in", "out", "intra"):
+        u = [t.row for t in getattr(input_data, f"unfiltered_{name}_transaction_set")]
+        f = [t.row for t in getattr(input_data, f"filtered_{name}_transaction_set")]
+        if u != f:
+            d.setdefault("filtered_differs", []).append(name)
     return d
 
 
-def impl_parse(ini_path, ods_path, asset, exchanges, holders, country="us"):
+def impl_config(ini_path, country="us", from_day=None, to_day=None):
     from harness import impl
+    from rp2.configuration import Configuration, MIN_DATE, MAX_DATE
+    return Configuration(ini_path, impl.country_obj(country),
+                         from_date=MIN_DATE if from_day is None else impl.date_of_day(from_day),
+                         to_date=MAX_DATE if to_day is None else impl.date_of_day(to_day))
+
+
+def dump_config(cfg):
+    d = {}
+    for t in TABLES:
+        h = getattr(cfg, f"_Configuration__{t}_header")
+        d[t] = [[FIELDS[t].index(f) if f in FIELDS[t] else -1, c] for f, c in h.items()]
+    d["assets"] = sorted(cfg.assets)
+    d["exchanges"] = sorted(getattr(cfg, "_Configuration__exchanges"))
+    d["holders"] = sorted(getattr(cfg, "_Configuration__holders"))
+    d["methods"] = [[y, m] for y, m in cfg.years_2_accounting_method_names.items()]
+    return d
+
+
+def impl_parse(ini_path, ods_path, assets_to_parse, exchanges, holders, country="us"):
+    """-> {'config': dump | {'err'..}, 'parsed': [per asset {'ok': dump} | {'err': kind, 'msg'}]} ; parsing stops at the first error
+    (as the run does)"""
+    from harness import impl
+    out = {"parsed": []}
     try:
-        from rp2.configuration import Configuration
         from rp2.ods_parser import open_ods, parse_ods
-        cfg = Configuration(ini_path, impl.country_obj(country))
-        handle = open_ods(cfg, ods_path)
-        data = parse_ods(cfg, asset, handle)
-        d = dump_input_data(data, exchanges, holders)
-        d["counter"] = cfg.get_new_artificial_id() + 1
-        return {"ok": d}
+        cfg = impl_config(ini_path, country)
+        out["config"] = {"ok": dump_config(cfg)}
     except Exception as exc:  # noqa: BLE001
-        return {"err": impl.err_kind(exc), "msg": str(exc)[:300]}
+        out["config"] = {"err": impl.err_kind(exc), "msg": str(exc)[:300]}
+        return out
+    try:
+        handle = open_ods(cfg, ods_path)
+    except Exception as exc:  # noqa: BLE001
+        out["parsed"].append({"err": impl.err_kind(exc), "msg": str(exc)[:300]})
+        return out
+    for asset in assets_to_parse:
+        try:
+            data = parse_ods(cfg, asset, handle)
+            d = dump_input_data(data, exchanges, holders)
+            out["parsed"].append({"ok": d})
+        except Exception as exc:  # noqa: BLE001
+            out["parsed"].append({"err": impl.err_kind(exc), "msg": str(exc)[:300]})
+            break
+    out["counter"] = cfg.get_new_artificial_id() + 1
+    return out
 
 
 def workdir():
     return tempfile.mkdtemp(prefix="rp2l1_")
 
 
-def run_one(job):
-    """job: dict(case, lay, rows) -> (impl result, model input line)"""
-    d = job["dir"]
-    k = job["k"]
+def run_job(job):
+    """job: {dir, k, ini (text), sheets {name: rows}, parse [assets], lay, assets, exchanges, holders[, counter0]}
+    -> {'impl': impl_parse result, 'lines': [model command-41 line per parsed asset | None], 'secs': tokenised ini | None}"""
+    d, k = job["dir"], job["k"]
     ini = os.path.join(d, f"c{k}.ini")
     ods = os.path.join(d, f"s{k}.ods")
-    c = job["case"]
-    assets = job.get("assets", [c["asset"]])
-    write_ini(ini, job["lay"], assets, c["exchanges"], c["holders"], job.get("ini_extra", ""))
-    if job.get("ini_text") is not None:
-        with open(ini, "w", encoding="utf-8") as f:
-            f.write(job["ini_text"])
-    write_ods(ods, job.get("sheets") or {job.get("sheet_name", c["asset"]): job["rows"]})
-    res = impl_parse(ini, ods, job.get("parse_asset", c["asset"]), c["exchanges"], c["holders"])
-    line = None
+    with open(ini, "w", encoding="utf-8") as f:
+        f.write(job["ini"])
+    res = {"lines": [], "secs": None}
     try:
-        cells = read_cells(ods, job.get("parse_asset", c["asset"]))
-        line = hist.line(40, encode_parse_input(job["lay"], assets, c["exchanges"], c["holders"], job.get("parse_asset", c["asset"]), 0, cells))
-    except Exception:  # noqa: BLE001
-        line = None
-    for p in (ini, ods):
+        write_ods(ods, job["sheets"])
+        res["impl"] = impl_parse(ini, ods, job["parse"], job["exchanges"], job["holders"], job.get("country", "us"))
+        for i, asset in enumerate(job["parse"]):
+            try:
+                cells = read_cells(ods, asset)
+            except KeyError:
+                cells = []           # no such sheet: the model still decides whether the asset is configured
+            try:
+                c0 = job.get("counters", [0] * len(job["parse"]))[i]
+                res["lines"].append(hist.line(41, encode_parse_full(job["lay"], job["assets"], job["exchanges"], job["holders"], asset, c0, cells)))
+            except Exception:  # noqa: BLE001
+                res["lines"].append(None)
+        res["secs"] = tokenise_ini(job["ini"])
+    finally:
+        for p in (ini, ods):
+            try:
+                os.unlink(p)
+            except OSError:
+                pass
+    return res
+
+
+# ----------------------------------------------------------------------------- implementation (command line)
+def cli_cmd(country):
+    if core.REPO == "/repo":
+        return [f"/venv/bin/rp2_{country}"]
+    return ["/venv/bin/python", "-c", f"from rp2.plugin.country.{country} import rp2_entry; rp2_entry()"]
+
+
+def cli_run(job):
+    """job: {country, ini (text), sheets, args (extra options)} -> {rc, text (stdout+stderr+log, tail), files (in the output dir)}"""
+    d = tempfile.mkdtemp(prefix="rp2l1cli_")
+    try:
+        ini = os.path.join(d, "config.ini")
+        ods = os.path.join(d, "input.ods")
+        outdir = os.path.join(d, "out")
+        with open(ini, "w", encoding="utf-8") as f:
+            f.write(job["ini"])
+        write_ods(ods, job["sheets"])
+        env = dict(os.environ)
+        env["PYTHONPATH"] = os.path.join(core.REPO, "src")
+        env["PYTHONHASHSEED"] = "0"
+        if job["country"] == "generic":
+            env["CURRENCY_CODE"] = "usd"
+            env["LONG_TERM_CAPITAL_GAINS"] = "365"
+        args = list(job.get("args", []))
+        if job["country"] == "jp" and "-g" not in args:
+            args += ["-g", "en"]
+        cmd = cli_cmd(job["country"]) + ["-o", outdir] + args + [ini, ods]
         try:
-            os.unlink(p)
-        except OSError:
-            pass
-    return res, line
+            p = subprocess.run(cmd, cwd=d, env=env, stdout=subprocess.PIPE, stderr=subprocess.PIPE, text=True, timeout=120)
+            rc, text = p.returncode, p.stdout[-1500:] + p.stderr[-2500:]
+        except subprocess.TimeoutExpired:
+            rc, text = -999, "timeout"
+        files = []
+        if os.path.isdir(outdir):
+            for root, _, fs in os.walk(outdir):
+                files += [os.path.relpath(os.path.join(root, f), outdir) for f in fs]
+        logtxt = ""
+        logdir = os.path.join(d, "log")
+        if os.path.isdir(logdir):
+            for f in sorted(os.listdir(logdir)):
+                try:
+                    logtxt += open(os.path.join(logdir, f), encoding="utf-8", errors="replace").read()[-1500:]
+                except OSError:
+                    pass
+        return {"rc": rc, "text": text, "log": logtxt, "files": sorted(files)}
+    finally:
+        shutil.rmtree(d, ignore_errors=True)
